@@ -247,9 +247,13 @@ pub fn run(ctx: &Ctx) -> Report {
             }
           }
           // the same request written differently: the decision is the same
-          if [0u64, 1000, 16383, 16384, 16385, 49152, 65537].contains(&p) {
+          if [0u64, 1000, 16383, 16384, 16385, 49152, 65537, 1 << 32, (1u64 << 32) + 1, 1 << 33].contains(&p) {
             let bit = 1u32 << ((mask as u32 + pa as u32 * 3 + (p % 7) as u32) % 9);
             cases.push(Case { mask, p, private: pa & 1 == 1, announce: pa & 2 == 2, tier: false, input: if bit == 256 { 0 } else { (mask % 3) as u8 }, unit: false, style: bit });
+          }
+          if p >= 1 << 32 {
+            // nothing is written under --dry-run, but what would be refused is refused all the same
+            cases.push(Case { mask, p, private: pa & 1 == 1, announce: pa & 2 == 2, tier: false, input: 0, unit: false, style: 32 });
           }
           if [8192u64, 16384, 24576, 1 << 20, 1 << 32, 1 << 33].contains(&p) {
             cases.push(Case { mask, p, private: pa & 1 == 1, announce: pa & 2 == 2, tier: false, input: (mask % 3) as u8, unit: true, style: 0 });
